@@ -63,7 +63,7 @@ func C14Scenario() *Scenario {
 					ex = &expect{mustSync: map[string]bool{}, mustNot: map[string]bool{}, startStep: w.step}
 					events := []string{"parent-spec", "parent-status", "parent-labels", "parent-unmanaged-edit", "child-edit", "child-delete", "child-status",
 						"orphan-create", "orphan-relabel", "foreign-child-edit", "wrong-uid-child", "wrong-kind-child", "related-edit", "related-relabel-away", "related-delete", "related-unselected-edit", "parent-create", "parent-delete",
-						"other-version-child", "related-edit-after-expiry"}
+						"other-version-child", "related-edit-after-expiry", "parent-unmanage"}
 					ev := events[w.T.Pick(len(events), "event")]
 					ex.name = ev
 					w.FaultsFired["event:"+ev]++
@@ -126,6 +126,16 @@ func C14Scenario() *Scenario {
 					case "parent-labels":
 						if EditObject(w, p.Res, p.NS, p.Name, "user", func(o Object) { setPath(o, fmt.Sprint(w.step), "metadata", "annotations", "touched") }) && managed(po) {
 							ex.mustSync[pkey(p)] = true
+						}
+					case "parent-unmanage":
+						// relabelled out of the controller's selector, not deleted: a parent that still
+						// carries the finalizer has to go through the finalize hook
+						if po != nil && selectorMatches(cfg.LabelSelector, labelsOf(po)) && metaRO(po)["deletionTimestamp"] == nil {
+							carries := hasFinalizer(po, cfg.FinalizerName())
+							EditObject(w, p.Res, p.NS, p.Name, "user", func(o Object) { setPath(o, "no", "metadata", "labels", "managed") })
+							if carries {
+								ex.mustSync[pkey(p)] = true
+							}
 						}
 					case "parent-unmanaged-edit":
 						if po != nil && !managed(po) {
